@@ -668,6 +668,63 @@ fn child_cases(run: &Run, thorough: bool) {
     });
 }
 
+/// One transaction spending coins whose values add up to 2^128 and more (the output side of this was finding J; the input side is
+/// only reachable once faucets have put more than 2^128 units into circulation - the genesis supply is far below 2^127, every
+/// single coin is within the maximum coin value): 255, 256 and 300 coins of 2^120 MEL from faucets, spent by one Normal
+/// transaction with one small output, with one maximal output, and in another denomination.
+fn inputs_adding_up_beyond_128_bits(run: &Run) {
+    let w = world_mel(NetID::Custom02, 1_000_000, 0);
+    for denom in [Denom::Mel, Denom::Sym] {
+        let set_up = guard(|| {
+            let mut u = w.genesis.clone().seal(None).next_unsealed();
+            let mut ids = vec![];
+            for i in 0..300u32 {
+                let f = tx_t(TxKind::Faucet, vec![], vec![out_t(1 << 120, denom)], 0, format!("max-coin-{}", i).into_bytes());
+                u.apply_tx(&f).ok()?;
+                ids.push(f.output_coinid(0));
+            }
+            Some((u.seal(None).next_unsealed(), ids))
+        });
+        let (u, ids) = match set_up {
+            Ok(Some(x)) => x,
+            Ok(None) => {
+                run.outcome("huge-inputs:set-up-not-accepted");
+                continue;
+            }
+            Err(p) => {
+                run.violation("C09", format!("apply_tx_batch/faucets-of-maximal-coins/{}", p.class()), format!("300 faucets of 2^120 {:?}: {}", denom, p.msg), json!({"setup": "300 faucets of 2^120"}));
+                continue;
+            }
+        };
+        for n in [255usize, 256, 300] {
+            for (oname, outs) in [("one small output", vec![out_t(12345, denom)]), ("one maximal output", vec![out_t(1 << 120, denom)])] {
+                let mut ins: Vec<CoinID> = ids[..n].to_vec();
+                let mut outs = outs;
+                if denom != Denom::Mel {
+                    // a transaction needs no MEL input at fee 0; keep the shape minimal
+                    outs.truncate(1);
+                }
+                ins.truncate(n);
+                let tx = tx_t(TxKind::Normal, ins, outs, 0, vec![]);
+                let label = format!("{} coins of 2^120 {} spent by one transaction with {}", n, crate::alphabet::dn(denom), oname);
+                let replay = json!({"setup": format!("genesis[Custom02] ; 300 faucets of 2^120 {:?} ; seal ; open", denom), "hostile": label, "inputs": n});
+                run.transition();
+                let mut st = u.clone();
+                let r = watched(&format!("apply_tx:{}", label), &replay, || guard(|| st.apply_tx(&tx)));
+                run.validated();
+                match r {
+                    Err(p) => {
+                        run.outcome("huge-inputs:panic");
+                        run.violation("C09", format!("apply_tx_batch/inputs-adding-up-beyond-128-bits/{}", p.class().rsplitn(2, '/').last().unwrap_or("panic")), format!("apply_tx([{}]) panicked: {}", label, p.msg), replay);
+                    }
+                    Ok(Err(_)) => run.outcome("huge-inputs:rejected"),
+                    Ok(Ok(())) => run.outcome("huge-inputs:accepted"),
+                }
+            }
+        }
+    }
+}
+
 /// Several degenerate or boundary pool requests against one pool in the same block (each harmless alone).
 fn pool_request_combinations(run: &Run, deltas: &[i8]) {
     let (_w, rootn) = root(NetID::Custom02, 0, true);
@@ -717,6 +774,12 @@ fn pool_request_combinations(run: &Run, deltas: &[i8]) {
         };
         reqs.push((format!("swap {} of {:?}", val, side), tx_t(TxKind::Swap, ins, outs, 0, ms.to_bytes().to_vec())));
     }
+    run_request_subsets(run, deltas, base.replay_json(None), u, reqs);
+}
+
+/// Every subset of two or three of the given requests in one block: applied as a batch, sealed under every action, and the next
+/// block sealed on top.
+fn run_request_subsets(run: &Run, deltas: &[i8], base_replay: serde_json::Value, u: St, reqs: Vec<(String, Transaction)>) {
     // every subset of up to 3 requests in one block
     let n = reqs.len();
     let mut subsets: Vec<Vec<usize>> = vec![];
@@ -729,7 +792,7 @@ fn pool_request_combinations(run: &Run, deltas: &[i8]) {
     subsets.par_iter().for_each(|idx| {
         let label = idx.iter().map(|i| reqs[*i].0.clone()).collect::<Vec<_>>().join(" + ");
         let batch: Vec<Transaction> = idx.iter().map(|i| reqs[*i].1.clone()).collect();
-        let replay = json!({"base": base.replay_json(None), "requests_in_one_block": label, "txs": batch.iter().map(tx_json).collect::<Vec<_>>()});
+        let replay = json!({"base": base_replay.clone(), "requests_in_one_block": label, "txs": batch.iter().map(tx_json).collect::<Vec<_>>()});
         run.transition();
         let mut st = u.clone();
         match watched(&format!("apply_tx_batch:{}", label), &replay, || guard(|| st.apply_tx_batch(&batch))) {
@@ -757,6 +820,69 @@ fn pool_request_combinations(run: &Run, deltas: &[i8]) {
             }
         }
     });
+}
+
+/// The same against a *user-created* pool (MEL against a custom token) whose whole liquidity N sits in one wallet coin, next to
+/// liquidity tokens the pool never issued (faucet-minted: 1, N, N/2 + 1, N - 1): withdrawals that are each within N and
+/// together beyond it, with and without the genuine coin, and swaps of zero, unit and larger amounts on both sides
+/// (seed C09-r11-1: the bound on withdrawals moved from the block's total to the single request).
+fn user_pool_request_combinations(run: &Run, deltas: &[i8]) {
+    let w = world_mel(NetID::Custom02, 1_000_000, 0);
+    let xd = Denom::Custom(melstructs::TxHash(tmelcrypt::hash_single(b"c09-user-pool-token")));
+    let k = PoolKey::new(Denom::Mel, xd);
+    let liq = k.liq_token_denom();
+    let side_value = |d: Denom| if d == Denom::Mel { 1_000_000u128 } else { 2_000_000 };
+    let res = guard(|| {
+        let mut u1 = w.genesis.clone().seal(None).next_unsealed();
+        let mut outs = vec![out_t(side_value(k.left()), k.left()), out_t(side_value(k.right()), k.right())];
+        for i in 0..10u128 {
+            outs.push(out_t(1000 + i, Denom::Mel));
+        }
+        outs.push(out_t(5000, xd));
+        outs.push(out_t(5001, xd));
+        let f1 = tx_t(TxKind::Faucet, vec![], outs, 0, b"user-pool-funds".to_vec());
+        u1.apply_tx(&f1).ok()?;
+        let s1 = u1.seal(None);
+        let mut u2 = s1.next_unsealed();
+        let dep = tx_t(TxKind::LiqDeposit, vec![f1.output_coinid(0), f1.output_coinid(1)], vec![out_t(side_value(k.left()), k.left()), out_t(side_value(k.right()), k.right())], 0, k.to_bytes().to_vec());
+        u2.apply_tx(&dep).ok()?;
+        let s2 = u2.seal(None);
+        let n = s2.coin(dep.output_coinid(0)).filter(|c| c.coin_data.denom == liq)?.coin_data.value.0;
+        let mut u3 = s2.next_unsealed();
+        let forged: Vec<u128> = vec![1, n, n / 2 + 1, n - 1];
+        let f2 = tx_t(TxKind::Faucet, vec![], forged.iter().map(|a| out_t(*a, liq)).collect(), 0, b"user-pool-forged-liq".to_vec());
+        u3.apply_tx(&f2).ok()?;
+        Some((u3, f1, dep, f2, n, forged))
+    });
+    let (u3, f1, dep, f2, n, forged) = match res {
+        Ok(Some(x)) => x,
+        Ok(None) => {
+            run.outcome("user-pool-combinations:set-up-not-accepted");
+            return;
+        }
+        Err(p) => {
+            run.violation("C09", format!("honest-setup/user-pool/{}", p.class()), format!("creating a user pool panicked: {}", p.msg), json!({"setup": "faucet ; seal ; deposit ; seal ; faucet"}));
+            return;
+        }
+    };
+    let carrier = |i: u8| (f1.output_coinid(2 + i), 1000 + i as u128);
+    let mut reqs: Vec<(String, Transaction)> = vec![];
+    reqs.push((format!("withdraw the genuine {}", n), tx_t(TxKind::LiqWithdraw, vec![dep.output_coinid(0), carrier(0).0], vec![out_t(n, liq)], carrier(0).1, k.to_bytes().to_vec())));
+    for (i, a) in forged.iter().enumerate() {
+        let c = carrier(1 + i as u8);
+        reqs.push((format!("withdraw {} never issued", a), tx_t(TxKind::LiqWithdraw, vec![f2.output_coinid(i as u8), c.0], vec![out_t(*a, liq)], c.1, k.to_bytes().to_vec())));
+    }
+    for (j, val) in [0u128, 1, 500].iter().enumerate() {
+        let c = carrier(5 + j as u8);
+        reqs.push((format!("swap {} of MEL", val), tx_t(TxKind::Swap, vec![c.0], vec![out_t(*val, Denom::Mel), out_t(c.1 - val, Denom::Mel)], 0, k.to_bytes().to_vec())));
+    }
+    for (j, val) in [0u128, 5001].iter().enumerate() {
+        let c = carrier(8 + j as u8);
+        let xv = 5000 + j as u128;
+        reqs.push((format!("swap {} of the token", val), tx_t(TxKind::Swap, vec![f1.output_coinid(12 + j as u8), c.0], vec![out_t(*val, xd), out_t(xv - val.min(&xv), xd), out_t(c.1, Denom::Mel)], 0, k.to_bytes().to_vec())));
+    }
+    run.set("user_pool_request_combinations", json!({"pool": "MEL / custom token, created by one deposit", "liquidity_issued": n.to_string(), "requests": reqs.iter().map(|r| r.0.clone()).collect::<Vec<_>>(), "subsets": "all of size 2 and 3"}));
+    run_request_subsets(run, deltas, json!({"setup": "genesis[Custom02] ; faucet(funds) ; seal ; deposit[MEL/token] ; seal ; faucet(liquidity tokens never issued: 1, N, N/2+1, N-1)"}), u3, reqs);
 }
 
 fn confirm_garbage(run: &Run) {
@@ -929,7 +1055,9 @@ pub fn run(run: &'static Run) {
         }
     }
     run.set("hostile_transactions", json!(total));
+    inputs_adding_up_beyond_128_bits(run);
     pool_request_combinations(run, &deltas);
+    user_pool_request_combinations(run, &deltas);
     // every transition of the state-graph scenarios is a totality check as well (the engine tags panics with C09): run the
     // liquidity scenarios of C16 (incl. the testnet history that creates and empties ERG/SYM before it becomes built-in) and
     // the request / spelling scenarios of C15 here, so that a panic on such a history is reported by this check
